@@ -131,6 +131,16 @@ func runC03(c *core.Ctx, ck *Check) {
 		r := c.Rand("c03", e.Name, itoa(j.k))
 		ar := gen.Arity[e.Name]
 		val := func() string {
+			switch r.IntN(12) {
+			case 0:
+				return gen.CarryNum(r)
+			case 1:
+				return gen.DateNum(r, false)
+			case 2:
+				if n := gen.EcoNum(e.Name, r); n != "" && len(n) <= 9 && strings.TrimLeft(n, "0") == n {
+					return n
+				}
+			}
 			if r.IntN(3) == 0 {
 				return strconv.FormatInt(r.Int64N(1<<31), 10)
 			}
